@@ -9,4 +9,4 @@ CLAIMED = {}
 
 # properties whose checks are registered in MANIFEST.json (a check is registered only once it
 # exits 0 on the tree as it stands; see DESIGN.md section 7, last paragraph)
-REGISTERED = ["C01", "C02", "C03", "C05", "C06", "C07", "C09", "C10", "C11", "C12", "C13", "C14", "C15", "C16", "C17", "C18", "C19"]
+REGISTERED = ["C01", "C02", "C03", "C04", "C05", "C06", "C07", "C08", "C09", "C10", "C11", "C12", "C13", "C14", "C15", "C16", "C17", "C18", "C19", "C20"]
